@@ -54,6 +54,7 @@ type world struct {
 	addr    string
 	sess    []string // sealed session values produced by real logins of this proxy
 	csrfKey string
+	strict  bool // the real callback refuses a state record with an empty session id (probed once)
 }
 
 // ---------------------------------------------------------------- symbolic descriptions
@@ -552,10 +553,10 @@ func (w *world) flowCase(r *c.Rng, auth *c.FakeAuth, force string) (c.Case, erro
 		c.Bool(formOK), c.Str(errParam), c.Str(code), ch.sw.coq(), cookieCoq, c.Str(host), redeemSym, c.Bool(valid))
 	obsCoq := fmt.Sprintf("{| fo_status := %d; fo_redeem_called := %s; fo_session := %s; fo_csrf_cleared := %s; fo_location := %s |}",
 		rec.Code, c.Bool(redeemCalled), sessObs, c.Bool(csrfEff == "cleared"), c.Str(location))
-	coq := fmt.Sprintf("CFlow %s %s %s %s %s %s", c.Bool(canon), c.List(stf), c.List(iss), reqCoq, c.List(rt), obsCoq)
+	coq := fmt.Sprintf("CFlow %s %s %s %s %s %s %s", c.Bool(canon), c.Bool(w.strict), c.List(stf), c.List(iss), reqCoq, c.List(rt), obsCoq)
 	js := map[string]interface{}{
 		"kind": "flow", "presented": ch.tag, "host": host, "start_targets": []string{tA, tB}, "recorded": []string{A.rec.Redirect, B.rec.Redirect},
-		"code": code, "error": errParam, "form_ok": formOK, "redeem": redeemSym, "valid": valid, "post": post, "canonical_decoding": canon,
+		"code": code, "error": errParam, "form_ok": formOK, "redeem": redeemSym, "valid": valid, "post": post, "canonical_decoding": canon, "empty_record_refused": w.strict,
 		"obs": map[string]interface{}{"status": rec.Code, "redeem_called": redeemCalled, "session": sessJSON, "csrf_cleared": csrfEff == "cleared", "location": location},
 	}
 	return c.Case{Coq: coq, JSON: js}, nil
@@ -736,6 +737,18 @@ func main() {
 			c.Must(fmt.Errorf("set-up login failed: status %d", rec.Code))
 		}
 		w.sess = append(w.sess, val)
+	}
+	// Probe for the model's [strict] parameter: a state record with an EMPTY session id (forged here
+	// with the known secret, paired with an equally forged cookie) — refused with 400 only by a
+	// callback that carries the guard proposed for finding C06-K2.
+	{
+		e1, _ := w.Cipher.Marshal(&stateRec{})
+		e2, _ := w.Cipher.Marshal(&stateRec{})
+		req, err := rawRequest("GET", "/oauth2/callback?code=abc&state="+url.QueryEscape(e1), hostApp, map[string]string{"Cookie": w.csrfKey + "=" + e2}, "")
+		c.Must(err)
+		rec := w.Do(req)
+		eff, _ := c.CookieEffect(rec, w.CookieName)
+		w.strict = rec.Code == http.StatusBadRequest && eff != "set"
 	}
 	auth.TakeCalls()
 
